@@ -65,6 +65,8 @@ def rule_no_follow(ctx, facts, prefix):
 def run(ctx):
     facts = ctx.bin
     P = "C15-R1"
+    from .confimm import rule_config_as_loaded
+    rule_config_as_loaded(ctx, facts, "C15-R1")
     f = facts.one(FIND)
     if ctx.check(f is not None, P, "anchor|find", "CodeFinder::find found", ""):
         wd = f.calls_to(r"^walkdir::WalkDir::new$")
